@@ -1,5 +1,6 @@
 CONSTANTS NS = 4
  NT = 3
  NF = 0
+ Fill = FALSE
 INIT InitGen
 NEXT EvalGen
